@@ -33,7 +33,8 @@ EXHAUSTIVE_PART = 'every single-bit flip of the ciphertext of the enumerated sma
 
 SEC_REASONS = {12, 13, 14, 15, 16}
 SCOPES = [{0: 1, -1: 1}, {0: 1, -1: 1, -2: 1}, {-1: 1}, {0: 1, -1: 1, 3: 3}, None]    # None: no scope parameter, the default applies
-MODES = ['enc0-256', 'enc0-128', 'kw']
+# ('enc0-256-emptykid': a direct key whose key identifier is the empty byte string, a legal COSE kid)
+MODES = ['enc0-256', 'enc0-128', 'kw', 'enc0-256-emptykid']
 ALTERATION_KINDS = ['pri-flags', 'pri-dest', 'pri-src', 'pri-time', 'pri-seq', 'pri-lifetime', 'tgt-data', 'tgt-flags',
                     'tgt-type', 'tgt-num', 'tgt-crc-type', 'other-data', 'other-flags', 'sec-source', 'sec-scope',
                     'sec-addl-protected', 'res-protected', 'res-kid', 'res-iv', 'wrong-key', 'no-key', 'sec-scope-retype', 'sec-scope-drop', 'res-attach', 'recipient-extra']
@@ -210,6 +211,8 @@ def mode_params(mode):
         return 3, 'k-enc-1', ['k-enc-1']
     if mode == 'enc0-128':
         return 1, 'k-enc-16', ['k-enc-16']
+    if mode == 'enc0-256-emptykid':
+        return 3, '', ['']
     return 3, 'k-kek-1', ['k-kek-1']
 
 
